@@ -128,19 +128,27 @@ func VerifH_C07_Acks() {
 			}
 			// safety: success only after the acknowledgement(s) of the right kind with this request's id were sent
 			verifLock()
+			first := 0
+			if len(r.wseq) > 0 {
+				first = r.wseq[0] // an acknowledgement sent before the request was written is unsolicited: it completes nothing
+			}
 			switch r.kind {
 			case c11Pub1:
-				ok, _ := sentAfter(4, r.id, 0)
+				ok, _ := sentAfter(4, r.id, first)
 				verifAssert(ok, "C07.puback_own_id_before_success")
 			case c11Pub2:
-				ok1, _ := sentAfter(5, r.id, 0)
-				ok2, _ := sentAfter(7, r.id, 0)
+				rel := first
+				if len(r.wseq) > 1 {
+					rel = r.wseq[1]
+				}
+				ok1, _ := sentAfter(5, r.id, first)
+				ok2, _ := sentAfter(7, r.id, rel) // the PUBCOMP that answers this request's PUBREL
 				verifAssert(verifAnd(ok1, ok2), "C07.pubrec_and_pubcomp_own_id_before_success")
 			case c11Sub:
-				ok, _ := sentAfter(9, r.id, 0)
+				ok, _ := sentAfter(9, r.id, first)
 				verifAssert(ok, "C07.suback_own_id_before_success")
 			case c11Unsub:
-				ok, _ := sentAfter(11, r.id, 0)
+				ok, _ := sentAfter(11, r.id, first)
 				verifAssert(ok, "C07.unsuback_own_id_before_success")
 			}
 			verifUnlock()
